@@ -305,7 +305,32 @@ pub fn run_check<C: Check>(c: &C, env: &RunEnv) -> SubOutcome {
             known: &env.known,
             local_known: Cell::new(0),
         };
-        for case in c.corpus() {
+        let mut cases: Vec<C::Case> = c.corpus();
+        // saved regression inputs: /verif/replays/corpus/<property>/*.json (shrunk failures of
+        // defects that were repaired, of hand-made mutants and of seeded changes)
+        let dir = format!("{}/replays/corpus/{}", VERIF_DIR, env.property);
+        if let Ok(rd) = std::fs::read_dir(&dir) {
+            let mut files: Vec<_> = rd.filter_map(|e| e.ok()).map(|e| e.path()).collect();
+            files.sort();
+            for f in files {
+                if f.extension().and_then(|x| x.to_str()) != Some("json") {
+                    continue;
+                }
+                let Ok(txt) = std::fs::read_to_string(&f) else { continue };
+                let Ok(v) = serde_json::from_str::<Value>(&txt) else { continue };
+                if v.get("check").and_then(|x| x.as_str()) != Some(c.name()) {
+                    continue;
+                }
+                match v.get("case").cloned().map(serde_json::from_value::<C::Case>) {
+                    Some(Ok(case)) => {
+                        rec.class("saved-corpus");
+                        cases.push(case);
+                    }
+                    _ => rec.class("saved-corpus-undecodable"),
+                }
+            }
+        }
+        for case in cases {
             stats.evaluations.fetch_add(1, Ordering::Relaxed);
             rec.class("corpus");
             let r = std::panic::catch_unwind(std::panic::AssertUnwindSafe(|| c.test(&case, &rec)));
